@@ -109,6 +109,22 @@ def run_iban(shard, mon, S):
             for var in gen.decorate(b, rng, gen.WS_OTHER)[:2]:
                 observe(S.IBAN, var)  # observe-only zone
                 mon.tally("observed_only_other_unicode_space")
+        # components handed to the generator are input texts as well (C08: stripped, upper-cased)
+        pos = data.positions(table[cc])
+        if "bank_code" in pos and "account_code" in pos:
+            for b in bases[:3]:
+                bb = b[4:]
+                comp = {k: bb[pos[k][0] : pos[k][1]] for k in ("bank_code", "account_code", "branch_code") if k in pos}
+                og = observe(S.IBAN.generate, cc, bank_code=comp["bank_code"], account_code=comp["account_code"], branch_code=comp.get("branch_code", ""))
+                for _ in range(3):
+                    var = {k: rng.choice(gen.decorate(v, rng)) if v else v for k, v in comp.items()}
+                    ov = observe(S.IBAN.generate, cc, bank_code=var["bank_code"], account_code=var["account_code"], branch_code=var.get("branch_code", ""))
+                    mon.ev()
+                    mon.distinct(("generate", cc, tuple(sorted(var.items()))))
+                    w = {"country": cc, "components": comp, "variant": {k: esc(v) for k, v in var.items()}}
+                    if og.ok != ov.ok or (og.ok and str(og.value) != str(ov.value)):
+                        mon.viol("generate:decoration_of_components_changes_outcome", w, og.brief(), ov.brief())
+                    mon.tally("generate_variants")
         mon.sample({"base": bases[0], "variant": esc(gen.decorate(bases[0], rng)[5])})
 
 
